@@ -3,3 +3,5 @@
 # installed srctools 2.7.0 wheel that the baseline command imports.  Needs a shim for importlib_resources.
 mkdir -p /tmp/shim && echo "from importlib.resources import *" > /tmp/shim/importlib_resources.py
 cd /repo && PYTHONPATH=/repo/src:/tmp/shim /venv/bin/python -m pytest -q -p no:cacheprovider -n 8 "$@" 2>&1 | tail -25
+# regression fixtures written by the run (file_regression for parameters the wheel's tests do not have) are not part of the tree
+git -C /repo clean -fdq tests
